@@ -192,8 +192,9 @@ def _accepts_following(ctx, p, child, tag):
 # ---------------------------------------------------------------------------------------------
 # LUBA
 
-def h_luba_frame(ctx, ln):
-    """From idle: one frame with symbolic command code, payload of length ln, symbolic checksum."""
+def h_luba_frame(ctx, ln, chunking="whole"):
+    """From idle: one frame with symbolic command code, payload of length ln, symbolic checksum; delivered in
+    one read, in two reads split at a solver-chosen position, or one byte per read."""
     with _patched(ctx):
         p = S.DriverLubaRs232.LubaProtocol()
         child = S.DistributorQueue(p.queue_rx_dali)
@@ -204,9 +205,20 @@ def h_luba_frame(ctx, ln):
         if not good:
             chk = chk ^ ctx.fresh("flip", 1, 255)
         stream = [0x59, cmd, ln] + payload + [chk]
-        st, r = call(p.data_received, stream)
+        if chunking == "whole":
+            chunks = [stream]
+        elif chunking == "split":
+            k = 1 + ctx.fresh_choice("split", len(stream) - 1)
+            chunks = [stream[:k], stream[k:]]
+        else:
+            chunks = [[b] for b in stream]
+
+        def feed():
+            for c in chunks:
+                p.data_received(c)
+        st, r = call(feed)
         want, aside, pending = WF.luba_deframe(stream)
-        tag = "luba-frame"
+        tag = "luba-frame" if chunking == "whole" else "luba-frame-" + chunking
         if aside:
             return "set-aside"
         if st == "exc":
@@ -447,6 +459,11 @@ def cases(tier):
     cs.append(Case("luba-badlen", h_luba_badlen, {}))
     for ln in range(1, 24):
         cs.append(Case("luba-frame-%d" % ln, h_luba_frame, {"ln": ln}, width=256 if ln >= 8 else 64))
+    for ln in ((2, 7, 13, 20, 23) if tier == "quick" else range(1, 24)):
+        cs.append(Case("luba-frame-%d-split" % ln, h_luba_frame, {"ln": ln, "chunking": "split"},
+                       width=256 if ln >= 8 else 64))
+        cs.append(Case("luba-frame-%d-bytes" % ln, h_luba_frame, {"ln": ln, "chunking": "bytes"},
+                       width=256 if ln >= 8 else 64))
     nl = 5 if tier == "quick" else 7
     ns = 10 if tier == "quick" else 15
     cs.append(Case("luba-stream-%d" % nl, h_luba_stream, {"n": nl}))
